@@ -48,6 +48,17 @@ from solvor.types import Result
 __all__ = ["articulation_points", "bridges"]
 
 
+def _undirected_adjacency(node_list, node_set, neighbors):
+    """Adjacency with every edge present in both directions (input may list it once)."""
+    adj = {v: {} for v in node_list}
+    for v in node_list:
+        for w in neighbors(v):
+            if w in node_set:
+                adj[v][w] = None
+                adj[w][v] = None
+    return adj
+
+
 def articulation_points[S](
     nodes: Iterable[S],
     neighbors: Callable[[S], Iterable[S]],
@@ -63,6 +74,7 @@ def articulation_points[S](
         return Result(set(), 0, 0, n)
 
     node_set = set(node_list)
+    adj = _undirected_adjacency(node_list, node_set, neighbors)
     discovery: dict[S, int] = {}
     low: dict[S, int] = {}
     parent: dict[S, S | None] = {}
@@ -79,9 +91,7 @@ def articulation_points[S](
         low[v] = time[0]
         time[0] += 1
 
-        for w in neighbors(v):
-            if w not in node_set:
-                continue
+        for w in adj[v]:
 
             if w not in discovery:
                 children += 1
@@ -126,6 +136,7 @@ def bridges[S](
         return Result([], 0, 0, n)
 
     node_set = set(node_list)
+    adj = _undirected_adjacency(node_list, node_set, neighbors)
     discovery: dict[S, int] = {}
     low: dict[S, int] = {}
     parent: dict[S, S | None] = {}
@@ -141,9 +152,7 @@ def bridges[S](
         low[v] = time[0]
         time[0] += 1
 
-        for w in neighbors(v):
-            if w not in node_set:
-                continue
+        for w in adj[v]:
 
             if w not in discovery:
                 parent[w] = v
